@@ -144,3 +144,13 @@ func (w *RefuseLarge) Write(p []byte) (int, error) {
 	w.Got = append(w.Got, p...)
 	return len(p), nil
 }
+
+// SW adds a WriteString method (io.StringWriter) to a writer: destinations such as *os.File,
+// *bufio.Writer and most http.ResponseWriters have one, and io.WriteString prefers it.
+type SW struct{ W io.Writer }
+
+// Write passes through.
+func (s SW) Write(p []byte) (int, error) { return s.W.Write(p) }
+
+// WriteString passes through as one Write call.
+func (s SW) WriteString(str string) (int, error) { return s.W.Write([]byte(str)) }
